@@ -366,7 +366,8 @@ SELF_DT_ATTRS = {"dtype", "_dtype", "device", "_device"}
 
 
 def method_shape(fn):
-    """syntactic shape of one copy / conversion method -> (can_return_self, returns_under_dtype_test, mutates_self)
+    """syntactic shape of one copy / conversion method -> (can_return_self, returns_under_dtype_test, mutates_self,
+    reuses_components - see _reuses_components)
 
     can_return_self        some `return` yields `self` or a local name bound to `self` (directly, or as an arm of a
                            conditional expression / boolean operator)
@@ -410,7 +411,97 @@ def method_shape(fn):
         if isinstance(n, ast.Call) and isinstance(n.func, ast.Name) and n.func.id == "setattr" and n.args \
                 and _may_be(n.args[0], aliases):
             mut = True
-    return ret_self, cond, mut
+    return ret_self, cond, mut, _reuses_components(f, aliases)
+
+
+def _hasattr_only(t):
+    """is the test built from hasattr(...) calls only (and / or / not)?  Such a test asks whether the component CAN be
+    copied / converted at all; anything else (requires_grad, dtype, device, identity ...) decides on the data"""
+    if isinstance(t, ast.Call) and isinstance(t.func, ast.Name) and t.func.id == "hasattr":
+        return True
+    if isinstance(t, ast.BoolOp):
+        return all(_hasattr_only(v) for v in t.values)
+    if isinstance(t, ast.UnaryOp) and isinstance(t.op, ast.Not):
+        return _hasattr_only(t.operand)
+    return False
+
+
+def _reuses_components(f, aliases):
+    """can the method put one of the operator's OWN components (an element of self._args / self._kwargs, a parameter of
+    a nested helper applied to them) into the result unchanged, other than because the component lacks the method?
+
+      * `*self._args` / `**self._kwargs` / `{**self._kwargs, ...}` handed to a call, or
+      * an element name (loop / comprehension target, parameter of a nested function) used bare - as an arm of a
+        conditional expression, the argument of .append(), the value of a subscript assignment or of a `return` inside
+        a nested function, the element of a comprehension - at a place that is not governed solely by hasattr(...) tests
+        (no test at all counts as well)."""
+    hit = []
+    elems = set()
+    for n in ast.walk(f):
+        if isinstance(n, (ast.For, ast.comprehension)):
+            for x in ast.walk(n.target):
+                if isinstance(x, ast.Name):
+                    elems.add(x.id)
+        if isinstance(n, (ast.FunctionDef, ast.Lambda)) and n is not f:
+            for a in n.args.args:
+                elems.add(a.arg)
+
+    def own(e):
+        return isinstance(e, ast.Attribute) and isinstance(e.value, ast.Name) and e.value.id in aliases and \
+            e.attr in ("_args", "_kwargs", "_differentiable_kwargs", "_nondifferentiable_kwargs")
+
+    def bare(e):
+        return isinstance(e, ast.Name) and e.id in elems
+
+    def visit(n, tests, nested):
+        if isinstance(n, ast.Call):
+            for a in n.args:
+                if isinstance(a, ast.Starred) and own(a.value):
+                    hit.append("star")
+            for k in n.keywords:
+                if k.arg is None and own(k.value):
+                    hit.append("starstar")
+            if isinstance(n.func, ast.Attribute) and n.func.attr == "append" and n.args and bare(n.args[0]):
+                if not (tests and all(_hasattr_only(t) for t in tests)):
+                    hit.append("append")
+        if isinstance(n, ast.Dict):
+            for k, v in zip(n.keys, n.values):
+                if k is None and own(v):
+                    hit.append("dictsplat")
+        if isinstance(n, ast.Assign) and any(isinstance(t, ast.Subscript) for t in n.targets) and bare(n.value):
+            if not (tests and all(_hasattr_only(t) for t in tests)):
+                hit.append("setitem")
+        if isinstance(n, ast.Return) and nested and n.value is not None and bare(n.value):
+            if not (tests and all(_hasattr_only(t) for t in tests)):
+                hit.append("return")
+        if isinstance(n, (ast.ListComp, ast.GeneratorExp, ast.SetComp)) and bare(n.elt):
+            hit.append("comp")
+        if isinstance(n, ast.DictComp) and bare(n.value):
+            hit.append("comp")
+        if isinstance(n, ast.IfExp):
+            visit(n.test, tests, nested)
+            for arm in (n.body, n.orelse):
+                if bare(arm) and not all(_hasattr_only(t) for t in tests + [n.test]):
+                    hit.append("ifexp")
+                visit(arm, tests + [n.test], nested)
+            return
+        if isinstance(n, ast.If):
+            visit(n.test, tests, nested)
+            for b in n.body + n.orelse:
+                visit(b, tests + [n.test], nested)
+            return
+        if isinstance(n, (ast.FunctionDef, ast.Lambda)) and n is not f:
+            body = n.body if isinstance(n.body, list) else [n.body]
+            if isinstance(n, ast.Lambda) and bare(n.body):
+                hit.append("lambda")
+            for b in body:
+                visit(b, [], True)
+            return
+        for ch in ast.iter_child_nodes(n):
+            visit(ch, tests, nested)
+    for b in f.body:
+        visit(b, [], False)
+    return bool(hit)
 
 
 def _may_be(e, aliases):
@@ -449,9 +540,10 @@ def translate_shapes():
                 rows.append((name, m) + method_shape(inspect.unwrap(fn)))
     b = lambda x: "true" if x else "false"
     lines = ["(* syntactic shape of every definition of a copy / conversion method: (owner class, method,",
-             "   (can return self, returns under a test of self.dtype/device, assigns an attribute of self)) *)",
-             "Definition method_shapes : list (string * string * (bool * bool * bool)) := ["]
-    lines.append(";\n".join('  ("%s", "%s", (%s, %s, %s))' % (o, m, b(r), b(c), b(u)) for o, m, r, c, u in rows))
+             "   (can return self, returns under a test of self.dtype/device, assigns an attribute of self,",
+             "    can embed a component of self unchanged for another reason than a missing method)) *)",
+             "Definition method_shapes : list (string * string * (bool * bool * bool * bool)) := ["]
+    lines.append(";\n".join('  ("%s", "%s", (%s, %s, %s, %s))' % (o, m, b(r), b(c), b(u), b(w)) for o, m, r, c, u, w in rows))
     lines.append("].")
     return "\n".join(lines) + "\n", rows
 
